@@ -28,24 +28,24 @@ Proof. exists "../outside". eexists. split; [|split]; vm_compute; reflexivity. Q
 (* put into such a run: the pre-existing file outside the root was overwritten and removed by the rollback *)
 Lemma outside_put_refuted_without_fix_p :
   exists run s', fget (fs st0) sent0 = Some 2%N
-    /\ step_v false false false st0 (Put 1 (fmt run) ".yaml" 9) = (s', Refused RuntimeErr)
+    /\ step_v false false false false st0 (Put 1 (fmt run) ".yaml" 9) = (s', Refused RuntimeErr)
     /\ fget (fs s') sent0 = None /\ inside sent0 = false.
 Proof. exists "%2E%2E/sentinel". eexists. conj; vm_compute; reflexivity. Qed.
 
 (* ingest(copy) into such a run SUCCEEDED: a file outside the root was overwritten; pruning the dataset removed it *)
 Lemma outside_ingest_refuted_without_fix_p :
   exists run s1,
-    step_v false false false st0 (Ingest Copy [1%N] (fmt run) ".yaml" stage0) = (s1, Done)
+    step_v false false false false st0 (Ingest Copy [1%N] (fmt run) ".yaml" stage0) = (s1, Done)
     /\ fget (fs st0) sent0 = Some 2%N /\ fget (fs s1) sent0 = Some 1%N
     /\ recs_inside s1 = false
-    /\ fget (fs (fst (step_v false false false s1 (Prune [1%N])))) sent0 = None.
+    /\ fget (fs (fst (step_v false false false false s1 (Prune [1%N])))) sent0 = None.
 Proof. exists "%2E%2E/sentinel". eexists. conj; vm_compute; reflexivity. Qed.
 
 (* ---- with df0ecd0: a text whose RESOLVED location is not under the root is refused before anything happens ------ *)
 Lemma unchecked_put_refused_p : forall s id p ext c,
   inside (rel_loc (stage_a p)) = false -> step s (Put id (FOk p) ext c) = (s, Refused ValueErr).
 Proof.
-  intros s id p ext c H. unfold step, step_v, refuse_location, checked. rewrite H. simpl.
+  intros s id p ext c H. unfold step, step_v, refuse_w, refuse_location, checked. rewrite H. simpl.
   rewrite orb_true_r. reflexivity.
 Qed.
 
@@ -53,7 +53,7 @@ Lemma unchecked_ingest_refused_p : forall s m ids p ext src,
   inside (rel_loc (stage_a p)) = false ->
   fst (step s (Ingest m ids (FOk p) ext src)) = s /\ snd (step s (Ingest m ids (FOk p) ext src)) <> Done.
 Proof.
-  intros s m ids p ext src H. unfold step, step_v, refuse_location, checked. rewrite H. simpl negb.
+  intros s m ids p ext src H. unfold step, step_v, refuse_w, refuse_location, checked. rewrite H. simpl negb.
   rewrite orb_true_r.
   destruct (held_any s ids); destruct (fget (fs s) src); cbn [andb fst snd]; split; try reflexivity; discriminate.
 Qed.
@@ -160,7 +160,7 @@ Lemma alias_refuted_p :
 Proof. eexists. exists ["aJb"; "dtD"; "dtD_Cam_det0_aJb.yaml"]. eexists. conj; vm_compute; reflexivity. Qed.
 
 (* REPAIRED by 2da36a1.  Before it (step_noichk): a refused re-ingest removed the artifact of the dataset the datastore holds *)
-Definition step_noichk : state -> op -> state * outcome := step_v true true false.
+Definition step_noichk : state -> op -> state * outcome := step_v true true false true.
 Lemma reingest_refuted_p :
   exists s x l c,
     s = run st0 [Ingest Copy [1%N] (fmt "r1") ".yaml" stage0]
@@ -189,7 +189,7 @@ Proof.
   intros s m ids fr ext src H. unfold step, step_v in *.
   destruct (held_any s ids) eqn:Hh; destruct (fget (fs s) src) as [c|] eqn:Es; cbn [andb] in *;
     try reflexivity; destruct fr as [p| |]; try reflexivity; try rewrite Es in *; try reflexivity.
-  destruct (refuse_location true p); [reflexivity|]. cbn [snd] in H. exfalso. apply H. reflexivity.
+  destruct (refuse_w true true p); [reflexivity|]. cbn [snd] in H. exfalso. apply H. reflexivity.
 Qed.
 
 Lemma zip_refused_changes_nothing_p : forall s members z c,
